@@ -90,19 +90,19 @@ func TestVerifC11Cluster(t *testing.T) {
 				t.Fatalf("create index: %v", err)
 			}
 			defer c[0].API.DeleteIndex(ctx, index)
-			if _, err := c[0].API.CreateField(ctx, index, "f", pilosa.OptFieldTypeSet([]string{pilosa.CacheTypeRanked, pilosa.CacheTypeLRU, pilosa.CacheTypeNone}[rng.Intn(3)], 100)); err != nil {
+			if _, err := vrcCreateField(c[0].API, index, "f", pilosa.OptFieldTypeSet([]string{pilosa.CacheTypeRanked, pilosa.CacheTypeLRU, pilosa.CacheTypeNone}[rng.Intn(3)], 100)); err != nil {
 				t.Fatal(err)
 			}
-			if _, err := c[0].API.CreateField(ctx, index, "t", pilosa.OptFieldTypeTime("YM")); err != nil {
+			if _, err := vrcCreateField(c[0].API, index, "t", pilosa.OptFieldTypeTime("YM")); err != nil {
 				t.Fatal(err)
 			}
-			if _, err := c[0].API.CreateField(ctx, index, "v", pilosa.OptFieldTypeInt(-1000, 1000)); err != nil {
+			if _, err := vrcCreateField(c[0].API, index, "v", pilosa.OptFieldTypeInt(-1000, 1000)); err != nil {
 				t.Fatal(err)
 			}
-			if _, err := c[0].API.CreateField(ctx, index, "m", pilosa.OptFieldTypeMutex(pilosa.CacheTypeRanked, 100)); err != nil {
+			if _, err := vrcCreateField(c[0].API, index, "m", pilosa.OptFieldTypeMutex(pilosa.CacheTypeRanked, 100)); err != nil {
 				t.Fatal(err)
 			}
-			if _, err := c[0].API.CreateField(ctx, index, "b", pilosa.OptFieldTypeBool()); err != nil {
+			if _, err := vrcCreateField(c[0].API, index, "b", pilosa.OptFieldTypeBool()); err != nil {
 				t.Fatal(err)
 			}
 			cs := &c11cCase{Nodes: cfg.n, Replicas: cfg.rep}
